@@ -60,6 +60,14 @@ func c07(c *Ctx) {
 		r.Check(ok, "C07.D1", ap.Name(), "entry applied after the defer", c.P.Pos(call.Pos()), "defer dominates applyRobustMessage",
 			"applyRobustMessage is called before the recover handler is installed")
 	}
+	// every entry handed to applyProto reaches applyRobustMessage: there is no return before it (the message-of-death arm
+	// lives in applyRobustMessage, where the duplicate marker is advanced; an early exit for marked entries skips that)
+	for _, call := range callsIn(ap, isARM) {
+		cv := g.VertexOf(call)
+		early := g.Reach(g.Entry, func(x int) bool { return x == cv }, nil)[g.Exit]
+		r.Check(!early, "C07.D1", ap.Name(), "every entry reaches applyRobustMessage", c.P.Pos(call.Pos()), "no path from the entry of applyProto to a return avoids the call",
+			"applyProto can return without applying the entry (an early exit, e.g. for entries already marked as message of death): the skipping arm of applyRobustMessage, which advances the session's duplicate-detection marker, is never run on replay")
+	}
 	// who calls applyRobustMessage
 	for _, fi := range c.P.AllFuncs {
 		for _, call := range callsIn(fi, isARM) {
